@@ -58,6 +58,11 @@ def debvp_param(mode):
 
 def debvp_invalid(kw):
     def b(I):
+        # the constructor's validity test uses the TRUTHINESS of the values (`x_min_val and x_min_prime`): two
+        # conditions at one end are rejected at construction only when their values are non-zero (with zeros
+        # the object is built and enforce() raises NotImplementedError later).  The rejection targets fix
+        # "non-zero"; this is outside C01's statement (inadmissible specifications) and recorded in DESIGN 12.4.
+        I.par_truth = {k: True for k in kw}
         I.instantiate('DoubleEndedBVP1D', x_min=P('x_min'), x_max=P('x_max'), **{k: P(k) for k in kw})
         return ('cst', 0)
     return b
